@@ -126,6 +126,23 @@ func checkC12Inner(c haltCase, cur *int) error {
 		}
 	}
 	if useTable {
+		// the halted search's own tree must satisfy the same precondition as the follow-up's:
+		// entries stored under a repetition / fifty-move draw are true only for that history
+		_, hcfg := cfg.make(c.Param)
+		hb := b.Fork()
+		prepareRef(&hcfg, hb)
+		hcfg.Budget = 30_000
+		if cfg.Quiescence {
+			hcfg.Budget = 8_000
+		}
+		href, herr := refsearch.Search(hcfg, g.Clone(), hb, c.Depth)
+		if herr == refsearch.ErrBudget || (herr == nil && href.SawRepetitionOrFifty) || g.DrawEver() {
+			useTable = false
+		} else if herr != nil {
+			return herr
+		}
+	}
+	if useTable {
 		rb := fb.Fork()
 		prepareRef(&rcfg, rb)
 		rcfg.Budget = 30_000
